@@ -3,6 +3,7 @@ package props
 import (
 	"encoding/json"
 	"fmt"
+	"sort"
 	"strings"
 	"testing"
 	"time"
@@ -225,6 +226,9 @@ func c08Run(sc c07Scenario, f *c08Fault, idseed uint64) (res c08Result) {
 		case "tx":
 			c := w.clients[st.C]
 			d := c.dts[k.Name]
+			if !(d.entered || d.mode == "create") {
+				continue
+			}
 			if _, txErr, pan := sim.ExecTx(sc.Kind, d.dt, *st.Tx); txErr != nil || pan != nil {
 				res.err = fmt.Errorf("HARNESS-ERROR: step %d: the scenario's transaction failed: err=%v panic=%v", si, txErr, pan)
 				return res
@@ -522,8 +526,8 @@ func c08Call(rt *rapid.T, kind sim.Kind, i int) sim.Call {
 // outage of several consecutive commands at a drawn command, or a server death + restart.
 func TestC08Random(t *testing.T) {
 	col := stats.New("C08", t.Name(),
-		"rapid: generated scenarios (Counter/Map/List/Document, 2-4 clients with create / subscribe / subscribe-or-create entry, 4-24 further steps of local calls [puts of primitives and nested values, removals, updates, batches], syncs and - on documents - REST patches); "+
-			"the scenario is first run fault-free to count its database commands, then re-run with one drawn fault: command k (uniform over the commands of the run, or - half of the cases - over its writes) fails before being applied, is applied and then reported as failed, for an outage of 1-4 consecutive commands, or is the last command before the database/server dies + restart; "+
+		"rapid: generated scenarios (Counter/Map/List/Document, 2-4 clients with create / subscribe / subscribe-or-create entry, 4-24 further steps of local calls [puts of primitives and nested values, removals, updates, batches], transactions of the user (1-3 calls), syncs and - on documents - REST patches); "+
+			"the scenario is first run fault-free to count its database commands, then re-run with one drawn fault: command k (uniform over the commands of the run, or - half of the cases - over its writes) fails before being applied, is applied and then reported as failed, for an outage of 1-4 consecutive commands, or is the last command before the database/server dies + restart; in a third of the cases that have an insert of several documents, that insert stores a drawn proper prefix of its documents and then fails or the server dies; "+
 			"same oracle as TestC08Enum (answered in time, error handler without state change, acknowledged operations stored, log invariants, retries succeed, nothing left unpushed, all replicas = server rebuild = refmodel(log); for REST-patched keys convergence is left to C19); "+
 			"non-trivial = a faulted command was a write and a client saw an error or the server was restarted; distinct = hash of (scenario, fault)")
 	checkProp(t, "C08", col, func(c *caseCtx) {
@@ -559,6 +563,13 @@ func TestC08Random(t *testing.T) {
 			switch w := rapid.IntRange(0, 9).Draw(rt, fmt.Sprintf("w%d", i)); {
 			case w < 4:
 				sc.Steps = append(sc.Steps, c07Step{K: "x", C: ci})
+			case w == 8:
+				// a transaction of the user: pushed as one unit of several documents
+				tx := &sim.Tx{Tag: fmt.Sprintf("t%d", i), FailAt: -1}
+				for j, m := 0, rapid.IntRange(1, 3).Draw(rt, fmt.Sprintf("txlen%d", i)); j < m; j++ {
+					tx.Calls = append(tx.Calls, c08Call(rt, kind, 1000+10*i+j))
+				}
+				sc.Steps = append(sc.Steps, c07Step{K: "tx", C: ci, Tx: tx})
 			case w == 9 && withPatch:
 				sc.Steps = append(sc.Steps, c07Step{K: "patch", Mode: fmt.Sprintf(`{"p%d":%d,"k1":"patched"}`, i%3, i)})
 			default:
@@ -585,6 +596,17 @@ func TestC08Random(t *testing.T) {
 		}
 		if mode != "stop-after" && flen > 1 {
 			f.Len = flen
+		}
+		if len(base.insertDocs) > 0 && rapid.IntRange(0, 2).Draw(rt, "interrupt-an-insert") == 0 {
+			// an insert of several documents that stops after a proper prefix (command error, or the server dies)
+			var seqs []int
+			for q := range base.insertDocs {
+				seqs = append(seqs, q)
+			}
+			sort.Ints(seqs)
+			q := seqs[rapid.IntRange(0, len(seqs)-1).Draw(rt, "which-insert")]
+			f = &c08Fault{K: q, Mode: rapid.SampledFrom([]string{"part-then-error", "part-then-stop"}).Draw(rt, "partial-mode"), Part: rapid.IntRange(1, base.insertDocs[q]-1).Draw(rt, "part")}
+			mode = f.Mode
 		}
 		c.j.Header = map[string]interface{}{"scenario": sc, "fault": f, "id_seed": idseed}
 		r := c08Run(sc, f, idseed)
@@ -620,7 +642,7 @@ func TestC08Random(t *testing.T) {
 		} else {
 			labels = append(labels, "fault-not-reached")
 		}
-		col.Case(r.writeHit && (r.sawError || mode == "stop-after"), string(b), labels, func() interface{} { return c.j.Header })
+		col.Case(r.writeHit && (r.sawError || f.stops()), string(b), labels, func() interface{} { return c.j.Header })
 	})
 }
 
